@@ -14,6 +14,8 @@ use std::collections::BTreeMap;
 #[derive(Clone, Debug, Serialize, Deserialize)]
 pub enum NOp {
     Ingest { node: usize, key: u64, weight: u64 },
+    /// cuckoo nodes only: delete a key the node currently holds (leaves a hole in a bucket)
+    Remove { node: usize, key: u64 },
     /// node ships a snapshot of its state; `json`: through serde_json bytes (HLL only)
     Snapshot { node: usize, id: u32, json: bool },
     /// the network delivers message `id` to `to`; `keep` leaves a copy in flight (duplication)
@@ -314,6 +316,31 @@ impl<'a> Exec<'a> {
                     }
                     let (nd, ct) = (&nodes[*node], contents[*node].clone());
                     if !self.check_node(nd, &ct, &format!("node {} after ingest({})", node, key)) {
+                        return;
+                    }
+                }
+                NOp::Remove { node, key } => {
+                    if *node >= n || !self.is_cuckoo || contents[*node].get(key).copied().unwrap_or(0) == 0 {
+                        continue;
+                    }
+                    let got = match &mut nodes[*node] {
+                        AnyNode::Filter(f) => f.delete(*key),
+                        _ => None,
+                    };
+                    self.stats.steps += 1;
+                    self.stats.sig(7);
+                    if got != Some(true) {
+                        self.viol.push(v("C14", "cuckoo/delete/return-mismatch".into(), self.step, format!("node {}: delete({}) returned {:?} although the node holds the key", node, key, got)));
+                        return;
+                    }
+                    self.stats.probe("node_with_holes");
+                    let e = contents[*node].get_mut(key).unwrap();
+                    *e -= 1;
+                    if *e == 0 {
+                        contents[*node].remove(key);
+                    }
+                    let ct = contents[*node].clone();
+                    if !self.check_node(&nodes[*node], &ct, &format!("node {} after delete({})", node, key)) {
                         return;
                     }
                 }
@@ -674,7 +701,9 @@ impl Scenario for S2 {
         let maxw = if cmax <= 255 { 3 } else if cmax <= 65535 { 50 } else { 1000 };
         for _ in 0..steps {
             let x = g.below(100);
-            if x < 45 {
+            if x < 8 && matches!(kind, NKind::Filter(FKind::Cuckoo { .. })) {
+                ops.push(NOp::Remove { node: g.usize(nodes), key: universe[g.usize(live.max(1))] });
+            } else if x < 45 {
                 let node = g.usize(nodes);
                 let key = universe[g.usize(live.max(1))];
                 let weight = if matches!(kind, NKind::Cms { .. }) && g.chance(1, 2) { g.range(1, maxw) } else { 1 };
